@@ -450,6 +450,59 @@ func (g *G) Decoys(n int, emit func(s []byte, r rune)) {
 	}
 }
 
+// InnerRepeatDecoys: a rune whose encoding repeats its last byte inside itself (3-byte: c1 == c2; 4-byte: c1 == c3, c2 == c3 or all
+// three), preceded by 0..9 ASCII bytes and 0..10 two-byte decoys ending in that byte, so that a search for the last byte that gives up
+// after too many false positives (the Cutover hand-off of indexRuneCase) gives up on every possible byte of the real occurrence —
+// in particular on an interior byte of it, where the restart offset must reach back to the start of the rune.
+func (g *G) InnerRepeatDecoys(n int, emit func(s []byte, r rune)) {
+	for i := 0; i < n; i++ {
+		L := byte(0x80 + g.R.Intn(0x40))
+		other := byte(0x80 + g.R.Intn(0x40))
+		for other == L {
+			other = byte(0x80 + g.R.Intn(0x40))
+		}
+		var enc []byte
+		switch g.R.Intn(5) {
+		case 0:
+			enc = []byte{byte(0xE1 + g.R.Intn(12)), L, L}
+		case 1:
+			enc = []byte{byte(0xF1 + g.R.Intn(3)), L, other, L}
+		case 2:
+			enc = []byte{byte(0xF1 + g.R.Intn(3)), other, L, L}
+		case 3:
+			enc = []byte{byte(0xF1 + g.R.Intn(3)), L, L, L}
+		default:
+			// cased 4-byte letters: Deseret / Osage / Old Hungarian (F0 90 xx yy) with yy == 0x90
+			enc = []byte{0xF0, 0x90, byte(0x90 + g.R.Intn(0x30)), 0x90}
+			L = 0x90
+		}
+		r, w := utf8.DecodeRune(enc)
+		if r == utf8.RuneError || w != len(enc) {
+			continue
+		}
+		s := g.Pad(g.R.Intn(10), 0, nil)
+		for k := g.R.Intn(11); k > 0; k-- {
+			if g.Valid || g.R.Intn(2) == 0 {
+				s = append(s, byte(0xC2+g.R.Intn(0x1E)), L)
+			} else {
+				s = append(s, L)
+			}
+		}
+		o := Orbit(r)
+		if g.R.Intn(5) > 0 {
+			s = append(s, string(o[g.R.Intn(len(o))])...)
+		}
+		switch g.R.Intn(3) {
+		case 0:
+			s = append(s, 'x')
+			s = append(s, enc...)
+		case 1:
+			s = append(s, g.Pad(g.R.Intn(5), 0, nil)...)
+		}
+		emit(s, o[g.R.Intn(len(o))])
+	}
+}
+
 func inOrbit(a, b rune) bool {
 	for _, x := range Orbit(b) {
 		if x == a {
